@@ -635,7 +635,7 @@ class TrackWorld(World):
                 "tag0": self.rtagc - 300}
 
     def _g_neighbour(self, r, m):
-        return {"what": r.choice(["bbox", "centroid", "length", "compare_nn", "compare_hausdorff", "track_constraint", "time_constraint", "plot", "first_copy", "coords", "kernel_smooth"]), "other": r.randrange(self.cfg["sessions"])}
+        return {"what": r.choice(["bbox", "centroid", "length", "compare_nn", "compare_hausdorff", "track_constraint", "time_constraint", "plot", "first_copy", "coords", "kalman_refused", "cut_and_select", "noise_refused"]), "other": r.randrange(self.cfg["sessions"])}
 
     def _g_neighbour4(self, r, m):
         return self._g_neighbour(r, m)
@@ -2591,6 +2591,29 @@ class TrackWorld(World):
                 xs = t.getX()
                 if len(xs):
                     xs[0] = xs[0] + 1.0
+            elif what == "kalman_refused":
+                # a backward filter asked to use a speed feature the track does not have: refused
+                from tracklib.algo import filtering as flt
+                flt.Kalman(t, 0.5, 2.0, speed_af="zz_no_such_feature", mode=flt.KALMAN_BACKWARD, verbose=False)
+            elif what == "cut_and_select":
+                # a time-only constraint that cuts the tracks it selects: works on copies
+                from tracklib.core import TrackCollection
+                from tracklib.algo import selection as sel
+                tc = sel.TimeConstraint(begin=t2.getObs(len(t2) // 2).timestamp, end=t2.getLastObs().timestamp)
+                sel.Constraint(time=tc, type=sel.TYPE_CUT_AND_SELECT).select(TrackCollection([t]))
+            elif what == "fusion":
+                if len(t) > 40 or len(t2) > 40:
+                    return
+                from tracklib.core import TrackCollection
+                from tracklib.algo import comparison as cmp
+                fused = cmp.fusion(TrackCollection([t, t2]), verbose=False)
+                for ob in fused:                  # the fused track belongs to the caller
+                    ob.position.setX(ob.position.getX() + 1.0)
+            elif what == "noise_refused":
+                # simulated variants with a kernel whose covariance matrix is not positive definite: refused
+                import tracklib
+                from tracklib.core.kernel import UniformKernel
+                tracklib.noise(t, [1.0], [UniformKernel(35)], n=2)
             else:
                 from tracklib.core import Operator
                 from tracklib.core.kernel import GaussianKernel
@@ -2600,8 +2623,14 @@ class TrackWorld(World):
         if exc is not None and not isinstance(exc, Exception):
             return self._unexpected(prop, exc, "neighbouring module (%s)" % what)
         self.probe("track_handed_to_another_module")
-        for tt, mm in ((t, m),) + (((t2, m2),) if t2 is not t else ()):
-            if not self._adopt_side_features(tt, mm, "neighbouring module (%s)" % what):
+        if exc is not None:
+            self.probe("neighbouring_module_refused_the_request")
+        for tt, mm, ss in ((t, m, st.get("s", 0)),) + (((t2, m2, o),) if t2 is not t else ()):
+            left = [nm for nm in tt.getListAnalyticalFeatures() if nm not in mm["names"]]
+            if left:
+                self.fail(prop, "table.names", "neighbouring module (%s): it only reads the tracks it is given, yet the "
+                          "track of session %d now lists %r" % (what, ss, left), sorted(mm["names"]),
+                          tt.getListAnalyticalFeatures())
                 return
         self._check_all(prop, "neighbouring module (%s): the tracks it was given keep their positions, timestamps "
                         "and features" % what)
